@@ -8,6 +8,8 @@ CONSTANTS
   MaxCnt = 1
   R = 2
   G = 1
+  TR = 3
+  TMax = 3
   ColsPer = 1
   Canon = TRUE
   DataSrc = "free"
